@@ -336,9 +336,77 @@ def while_loop_ob(prog):
     return Ob("grad/while_loop", run, "every value produced by lax.while_loop passes through lax.stop_gradient at its call site", "gaussian_toolbox/approximate_conditional.py::HeteroscedasticConditional._get_omega_star", group="grad")
 
 
+# ---------------------------------------------------------------- 8. NaN-safe `where` guards (the repository's own double-where idiom)
+def _where_guard_violations(tree, relpath, qual):
+    """jnp.where(jnp.isfinite(X), A, B): if X enters A unsanitised (not as where(isfinite(X), X, const)) and is multiplied /
+    divided / passed through a function together with an object parameter (self.*), the VJP of the untaken branch is
+    0 * inf = NaN with respect to that parameter whenever the guard is False (reverse-mode gradient NaN)."""
+    out = []
+    n_sites = 0
+    for n in ast.walk(tree):
+        if not (isinstance(n, ast.Call) and ast.unparse(n.func).endswith("where") and len(n.args) == 3):
+            continue
+        c = n.args[0]
+        if not (isinstance(c, ast.Call) and ast.unparse(c.func).endswith("isfinite") and c.args):
+            continue
+        n_sites += 1
+        X = ast.unparse(c.args[0])
+        A = n.args[1]
+        sanitised = set()
+        for m in ast.walk(A):
+            if isinstance(m, ast.Call) and ast.unparse(m.func).endswith("where") and len(m.args) == 3 and ast.unparse(m.args[0]) == ast.unparse(c) and ast.unparse(m.args[1]) == X:
+                for q in ast.walk(m):
+                    sanitised.add(id(q))
+
+        def raw_x(t):
+            return any(ast.unparse(q) == X and id(q) not in sanitised for q in ast.walk(t) if isinstance(q, (ast.Attribute, ast.Name, ast.Subscript)))
+
+        def has_param(t):
+            return any(isinstance(q, ast.Attribute) and ast.unparse(q).startswith("self.") and ast.unparse(q) != X and not X.startswith(ast.unparse(q))
+                       for q in ast.walk(t) if id(q) not in sanitised)
+        for m in ast.walk(A):
+            if id(m) in sanitised:
+                continue
+            if isinstance(m, ast.BinOp) and isinstance(m.op, (ast.Mult, ast.Div, ast.Pow, ast.MatMult)):
+                if (raw_x(m.left) and has_param(m.right)) or (raw_x(m.right) and has_param(m.left)):
+                    out.append(f"{relpath}:{n.lineno} in {qual(n.lineno)}: `{X}` may be infinite where the guard `{ast.unparse(c)}` is False, but enters `{ast.unparse(m)[:120]}` unsanitised together with an object parameter: the reverse-mode gradient w.r.t. that parameter is NaN (0 * inf); use the double-where idiom `where(isfinite(X), X, 0)` inside the branch")
+                    break
+    return out, n_sites
+
+
+WG_SYNTH = '''
+def bad(self):
+    return jnp.where(jnp.isfinite(self.lower), (self.lower - self.mu) * jnp.sqrt(self.Lambda), self.lower)
+def good(self):
+    return jnp.where(jnp.isfinite(self.lower), (jnp.where(jnp.isfinite(self.lower), self.lower, 0) - self.mu) * jnp.sqrt(self.Lambda), self.lower)
+'''
+
+
+def where_guard_ob(prog):
+    def run():
+        t = ast.parse(WG_SYNTH)
+        v, _ = _where_guard_violations(t.body[0], "synthetic", lambda l: "bad")
+        w, _ = _where_guard_violations(t.body[1], "synthetic", lambda l: "good")
+        if len(v) != 1 or w:
+            raise Undecided("where-guard rule: synthetic positive / negative example mismatch")
+        bad = []
+        sites = 0
+        for mod, tree in prog.modules.items():
+            b, k = _where_guard_violations(tree, prog.relpath(mod), lambda l, mod=mod: prog.qualname_at(mod, l))
+            bad += b
+            sites += k
+        if sites < 6:
+            raise Undecided(f"only {sites} isfinite-guarded where sites found (floor 6)")
+        if bad:
+            raise Refuted("; ".join(bad[:2]), bad[0].split(":")[0] + "::" + bad[0].split(" in ")[1].split(":")[0], bad)
+        return [], dict(sites=sites)
+    return Ob("grad/where-guard", run, "isfinite-guarded `where` branches never combine the possibly infinite value with object parameters unsanitised (reverse-mode gradients stay finite)",
+              "gaussian_toolbox/experimental/truncated_measure.py::TruncatedGaussianMeasure.__post_init__", group="grad")
+
+
 def obligations(tier):
     prog = model.load()
-    obs = [api_resolution_ob(prog), while_loop_ob(prog), trace_synthetic_ob()]
+    obs = [api_resolution_ob(prog), while_loop_ob(prog), trace_synthetic_ob(), where_guard_ob(prog)]
     for cls in dataclasses_of(prog):
         obs.append(closure_ob(prog, cls))
         obs.append(idempotence_ob(prog, cls))
@@ -350,7 +418,7 @@ def obligations(tier):
     return obs
 
 
-FLOORS = {"group:api": 1, "group:pytree": 60, "group:todict": 8, "group:trace": 500, "group:grad": 1}
+FLOORS = {"group:api": 1, "group:pytree": 60, "group:todict": 8, "group:trace": 500, "group:grad": 2}
 LEVEL = "other"
 EXPLANATION = ("Static protocol lints for the clauses of C18 that are visible in the shape of the code: API names resolve in the installed jax; "
                "tree_flatten/tree_unflatten closure over instance attributes; constructor idempotence; non-array fields as children; to_dict/from_dict key "
